@@ -7,6 +7,9 @@ import QscModel.Hand.Axis
 import QscModel.Hand.ToFourier
 import QscModel.Hand.Dof
 import QscModel.Hand.Diag
+import QscModel.Hand.Vmec
+import QscModel.Hand.Fmin
+import QscModel.Hand.ShearTail
 /-! Dispatch of hand-written kernels for the driver: `hand <kernel> <args>*` -> lines `out <name> <values>*`. -/
 namespace Hand
 instance : NatCast Float := ⟨Float.ofNat⟩
@@ -70,6 +73,74 @@ def dispatch (kernel : String) (args : List String) : List String :=
       let C := fun (m : Nat) (n : Int) => getF v ((n + ntor).toNat * (mpol + 1) + m)
       let S := fun (m : Nat) (n : Int) => getF v (sz + (n + ntor).toNat * (mpol + 1) + m)
       [outF "val" ((List.range npts).map fun p => ToFourier.inverse Float.sin Float.cos nfp mpol ntor C S v[2 * sz + 2 * p]! v[2 * sz + 2 * p + 1]!)]
+  /- `vmec`: `hand vmec <ntheta> <nphi> <ntorMax> <mpolOv> <ntorOv> <lasym> <nfp> <r> <spsi> <B0> <p2> <I2> <nax> <rest>*`
+     ints in decimal; `<mpolOv>`, `<ntorOv>` = `-` when `params` has no such key, else the integer; `<lasym>` = 0/1;
+     `<r> <spsi> <B0> <p2> <I2>` and `<rest>` are bit patterns.  With `mpol`, `ntor` the resolution computed BY THE MODEL and
+     `sz = (2*ntor+1)*(mpol+1)`, `<rest>` = rc[nax] zs[nax] rs[nax] zc[nax] RBC[sz] ZBS[sz] (RBS[sz] ZBC[sz] only when lasym = 1),
+     the coefficient arrays flattened row-major as returned by `to_Fourier` (index `[n+ntor, m]`).
+     Output: `mpol`, `ntor`, `NTOR`, `lasym`, `nfp` (ints); `phiedge`, `am`, `curtor` (bits); one `axis_<NAME>` line per axis line
+     in file order (bits); `lines` = `n m kind` triples in file order (kind 0 = RBC/ZBS line, 1 = RBS/ZBC line); `vals` = the two
+     numbers of every line (bits); `asym_attr_is_array` = 1 iff `self.RBS`/`self.ZBC` are arrays afterwards (else the scalar 0). -/
+  | "vmec", ntheta :: nphi :: ntorMax :: mpolOv :: ntorOv :: lasym :: nfp :: r :: spsi :: b0 :: p2 :: i2 :: nax :: rest =>
+      let ov := fun (s : String) => if s == "-" then none else some s.toNat!
+      let lasym := lasym != "0"
+      let nax := nax.toNat!
+      let v := (rest.map fl).toArray
+      let mp := Vmec.mpol ntheta.toNat! (ov mpolOv); let nt := Vmec.ntor nphi.toNat! (ov ntorOv)
+      let sz := (2 * nt + 1) * (mp + 1)
+      let ax := fun (b : Nat) => (List.range nax).map fun k => getF v (b * nax + k)
+      let C := fun (b : Nat) (k m : Nat) => getF v (4 * nax + b * sz + k * (mp + 1) + m)
+      let f := Vmec.file (fun x : Float => x != 0.0) pi (4.0 * pi * 1e-7) ntheta.toNat! nphi.toNat! ntorMax.toNat! (ov mpolOv) (ov ntorOv)
+        lasym nfp.toNat! (fl r) (fl spsi) (fl b0) (fl p2) (fl i2) (ax 0) (ax 1) (ax 2) (ax 3) (C 0) (C 1) (C 2) (C 3)
+      let att := Vmec.attrs lasym (C 0) (C 1) (C 2) (C 3)
+      [outI "mpol" [f.mpol], outI "ntor" [nt], outI "NTOR" [f.ntorWritten], outI "lasym" [if f.lasym then 1 else 0], outI "nfp" [f.nfp],
+       outF "phiedge" [f.phiedge], outF "am" f.am, outF "curtor" [f.curtor]]
+      ++ f.axis.map (fun p => outF ("axis_" ++ p.1) p.2)
+      ++ [outI "lines" (f.boundary.flatMap fun l => [l.n, (l.m : Int), (match l.kind with | .sym => 0 | .asym => 1)]),
+          outF "vals" (f.boundary.flatMap fun l => [l.a, l.b]),
+          outI "asym_attr_is_array" [if att.RBS.isSome && att.ZBC.isSome then 1 else 0]]
+  /- `lasym`: `hand lasym <orderIsR1 0/1> <sigma0> <B2s> <n> rs[n] zc[n]` (floats as bits) -> `out lasym 0/1` -/
+  | "lasym", isR1 :: sigma0 :: b2s :: n :: rest =>
+      let n := n.toNat!
+      let v := (rest.map fl).toArray
+      let l := Vmec.lasym Float.abs (fun a b : Float => if b > a then b else a) (fun x : Float => x > 0.0) (fun x : Float => x != 0.0)
+        ((List.range n).map fun k => getF v k) ((List.range n).map fun k => getF v (n + k)) (fl sigma0) (isR1 != "0") (fl b2s)
+      [outI "lasym" [if l then 1 else 0]]
+  /- `fmin`: `hand fmin <n> y[n] <f0> <fm1> <fp1> <fm2> <fp2> <fm3> <fp3> <brent>` (n decimal, everything else bit patterns).
+     `f0 = func(index*dx)`, `fmj = func((index-j)*dx)`, `fpj = func((index+j)*dx)` for j = 1,2,3 with `index = np.argmin(y)`,
+     `dx = 2*pi/n`, evaluated by the harness with the Python interpolant; `<brent>` = `minimize_scalar(...).fun`.
+     The model's `func` looks its argument up among the 7 abscissae IT computes (NaN elsewhere), `brent` returns `<brent>`.
+     Output: `const` (1 = constant branch, returns y[0]), `index`, `found` (0/1), `j` (half-width of the bracket handed to
+     minimize_scalar; 0 in the constant branch), `bracket` (3 bits), `value` (bits). -/
+  | "fmin", n :: rest =>
+      let n := n.toNat!
+      let v := (rest.map fl).toArray
+      let e : Fmin.Env Float := { lt := fun a b => a < b, abs := Float.abs, pi := pi, tiny := 1e-14 }
+      let y := fun k => getF v k
+      let d := Fmin.dx e n
+      let idx := Fmin.argmin e.lt y (n - 1)
+      let pts : List (Float × Float) :=
+        [(Float.ofNat idx * d, getF v n)] ++
+        ([1, 2, 3].flatMap fun j => [((Fmin.bracketAt d idx j).1, getF v (n + 2 * j - 1)), ((Fmin.bracketAt d idx j).2.2, getF v (n + 2 * j))])
+      let func := fun (x : Float) => match pts.find? (fun p => p.1 == x) with | some p => p.2 | none => (0.0/0.0)
+      let r := Fmin.fmin e func (fun _ _ => getF v (n + 7)) y n
+      [outI "const" [if r.const then 1 else 0], outI "index" [r.index], outI "found" [if r.found then 1 else 0], outI "j" [r.j],
+       outF "bracket" [r.bracket.1, r.bracket.2.1, r.bracket.2.2], outF "value" [r.value]]
+  /- `shear`: `hand shear <n> <nfp> <nax> <sigma0> <iotaN> <B0> rs[nax] zc[nax] sigma[n] d_varphi_d_phi[n] varphi[n] LamTilde[n]
+     facNum[n] facDen[n] sol[n-1]`  (`n`, `nfp`, `nax` decimal; everything else bit patterns).
+     `facNum = X1c**2 + Y1c**2 + Y1s**2`, `facDen = Y1s**2` with the local (eps_scale-multiplied) `X1c, Y1c, Y1s` of `calculate_shear`;
+     `sol` = the result of the `np.linalg.solve(DMred, ·)` call of the branch Python took (`integSig[1:]` before the insert in the
+     symmetric branch, `integSigPer` in the other).
+     Output: `sym` (1 = stellarator-symmetric branch), `avSig` (bits; computed in both cases, used only when sym = 0), `iota2` (bits). -/
+  | "shear", n :: nfp :: nax :: sigma0 :: iotaN :: b0 :: rest =>
+      let n := n.toNat!; let nfp := nfp.toNat!; let nax := nax.toNat!
+      let v := (rest.map fl).toArray
+      let lst := fun (b : Nat) => (List.range nax).map fun k => getF v (b + k)
+      let arr := fun (j : Nat) (k : Nat) => getF v (2 * nax + j * n + k)
+      let sym := ShearTail.symBranch Float.abs (fun a b : Float => if b > a then b else a) (fun x : Float => x == 0.0) (fl sigma0) (lst 0) (lst nax)
+      let solve : (Nat → Float) → (Nat → Float) := fun _ k => getF v (2 * nax + 6 * n + k)
+      [outI "sym" [if sym then 1 else 0], outF "avSig" [ShearTail.avSig (arr 0) (arr 1) n],
+       outF "iota2" [ShearTail.iota2 Float.exp solve sym pi (fl b0) (fl iotaN) nfp (arr 0) (arr 3) (arr 4) (arr 5) (arr 1) (arr 2) n]]
   | "dof", lines =>
       -- one argument per op line, with '_' standing for the blanks inside a line ("set_1_2_3"); one `out resp` per line
       (Dof.runOps (lines.map fun l => l.replace "_" " ")).map fun r => s!"out resp {r}"
